@@ -59,3 +59,19 @@ Theorem dns_sort_fuel_enough :
   forall l, srv_sort l <> None.
 Proof. exact sort_fuel_enough. Qed.
 Print Assumptions dns_sort_fuel_enough.
+
+(* (4) correctness: for every well-formed successful response (RFC 1035 header with QR=1, RCODE=0;
+   question and answer sections made of well-formed, possibly compressed names within the 255-octet
+   limit; SRV RDATA filled exactly by priority, weight, port and target; labels of targets NUL-free)
+   the records returned are exactly the IN/SRV answers - priority, weight, port and the fully
+   expanded dotted target as a C string - in the order of (3); FOUND iff there is at least one *)
+Theorem dns_wellformed :
+  forall buf ans, wf_response buf ans -> srv_targets_text ans ->
+    exists st l, lookup buf = LDone st l /\
+      (st = XMPP_DOMAIN_FOUND \/ st = XMPP_DOMAIN_NOT_FOUND) /\
+      (st = XMPP_DOMAIN_FOUND <-> srv_answers ans <> []) /\
+      Permutation (map rr_view l) (map expected_view (srv_answers ans)) /\
+      StronglySorted (fun a b => rr_priority a < rr_priority b \/
+                                 (rr_priority a = rr_priority b /\ rr_weight b <= rr_weight a)) l.
+Proof. exact lookup_wellformed. Qed.
+Print Assumptions dns_wellformed.
